@@ -166,7 +166,11 @@ def gen_validate_case(ctx: Ctx, valid_only=False):
         max_el = rng.choice([1, 2, 3, 5, 8, 16, 50, 200, 5000])
     else:
         max_el = rng.choice(["auto", -3, 0, 1, 2, 3, 5, 8, 16, 50, 200, 5000, rng.randint(1, 100)])
-    return {"kind": "validate", "shape": list(shape), "chunks": untuple(chunks), "max_elements": max_el}
+    case = {"kind": "validate", "shape": list(shape), "chunks": untuple(chunks), "max_elements": max_el}
+    if rng.random() < 0.25:  # limits given in bytes: "auto" (dask config) or a byte string, with a dtype
+        case["max_elements"] = rng.choice(["auto", "100 B", "64 B", "1 kB", "1.5 kB", "2 KiB", "7", "40000 B"])
+        case["dtype"] = rng.choice(["float32", "complex64", "float64", "complex128", None if not valid_only else "float32"])
+    return case
 
 
 def small_exhaustive():
@@ -208,10 +212,29 @@ def gen_ranges_case(ctx: Ctx, valid_only=False):
 
 
 # ----------------------------------------------------------------------------- implementation drivers
+def np_dtype(case):
+    return None if case.get("dtype") is None else np.dtype(case["dtype"])
+
+
 def impl_validate(case):
     from abtem.core.chunks import validate_chunks
 
-    return canon(guarded(validate_chunks, tuple(case["shape"]), retuple_chunks(case["chunks"]), case["max_elements"]), ll)
+    return canon(guarded(validate_chunks, tuple(case["shape"]), retuple_chunks(case["chunks"]), case["max_elements"], np_dtype(case)), ll)
+
+
+def limit_of(case):
+    """the element limit the code derives from max_elements (None when it raises before using it)"""
+    from dask.utils import parse_bytes
+
+    from abtem.core import config
+
+    m = case["max_elements"]
+    if isinstance(m, int):
+        return m
+    item = np.dtype(np_dtype(case)).itemsize
+    if m == "auto":
+        return None if case.get("dtype") is None else parse_bytes(config.get("dask.chunk-size")) // item
+    return parse_bytes(m) // item
 
 
 def impl_esc(case):
@@ -243,8 +266,18 @@ def impl_iter(case):
 
 
 def line_validate(case):
+    from dask.utils import parse_bytes
+
+    from abtem.core import config
+
     m = case["max_elements"]
-    return f"validate {list_s(case['shape'])} {chunkarg_s(retuple_chunks(case['chunks']))} {'none' if m == 'auto' else m}"
+    if isinstance(m, str):
+        item = np.dtype(np_dtype(case)).itemsize  # np.dtype(None) is float64, as in the code
+        if m == "auto":
+            m = "none" if case.get("dtype") is None else f"A{parse_bytes(config.get('dask.chunk-size'))}:{item}"
+        else:
+            m = f"S{parse_bytes(m)}:{item}"
+    return f"validate {list_s(case['shape'])} {chunkarg_s(retuple_chunks(case['chunks']))} {m}"
 
 
 # ----------------------------------------------------------------------------- property
@@ -260,8 +293,7 @@ class C18(Property):
         "prefix; the product over all dimensions is F * product over the auto dimensions)",
         "Python int semantics of // and % (floor division; ZeroDivisionError modelled explicitly), arbitrary-precision ints",
     ]
-    assumptions = ["max_elements given as an int (the byte-size strings / config lookups of 'auto' are resolved by dask.utils.parse_bytes "
-                   "and numpy dtype itemsize and are not modelled; 'auto' without dtype is modelled as the ValueError it raises)"]
+    assumptions = ["dask.utils.parse_bytes and abtem config lookups are trusted: byte budgets reach the model as the parsed byte count and the dtype itemsize"]
     rule = ("validate_chunks cases: random shapes (0-4 dims), chunk arguments (ints incl. -1/0/negative, 'auto', other strings, None, "
             "tuples mixing ints/'auto'/explicit tuples/empty tuples/None, length mismatches) and limits, plus the exhaustive small grid; "
             "equal_sized_chunks/generate_chunks/chunk_ranges/iterate_chunk_ranges cases: random ints incl. zero/negative; "
@@ -315,7 +347,8 @@ class C18(Property):
                 ctx.violation("validate-chunks-does-not-terminate", c, {"observed": "no result within 20 s"}); return
             tup = isinstance(chunks, tuple)
             specs = list(chunks) if tup else ["auto"] * len(shape)
-            limit = m if tup else chunks
+            limit = (limit_of(c) if isinstance(m, str) else m) if tup else chunks
+            r = guarded(validate_chunks, shape, chunks, m, np_dtype(c))
             well_formed = (all(s >= 1 for s in shape) and (not tup or len(chunks) == len(shape)) and isinstance(limit, int) and (tup or chunks >= 1)
                            and all(c_ == "auto" or c_ == -1 or (isinstance(c_, int) and c_ >= 1)
                                    or (isinstance(c_, tuple) and len(c_) > 0 and all(x >= 1 for x in c_) and sum(c_) == s)
